@@ -328,19 +328,58 @@ def spec_yield(q, a):
     return None
 
 
+def slab_queries(tier, seed):
+    """histories of schedule / complete / wake / dispatch over up to 8 manual tasks on one executor: tasks complete out
+    of scheduling order and new ones are scheduled while older ones are pending"""
+    rnd = random.Random(seed * 7 + 3)
+    out = ["slab s0 s1 d c0 d s2 c1 d c2 d d", "slab s0 s1 s2 d c1 d s3 s4 c0 d c3 c2 d c4 d d", "slab s0 c0 d w0 d s1 d c1 w1 d d"]
+    for _ in range(150 if tier == "quick" else 4000):
+        n = rnd.randrange(2, 9)
+        nxt, sched, compl, ops = 0, [], set(), []
+        for _ in range(rnd.randrange(4, 30)):
+            r = rnd.random()
+            if r < 0.3 and nxt < n:
+                ops.append("s%d" % nxt); sched.append(nxt); nxt += 1
+            elif r < 0.55 and sched:
+                i = rnd.choice(sched)
+                ops.append("c%d" % i); compl.add(i)
+            elif r < 0.65 and sched:
+                ops.append("w%d" % rnd.choice(sched))
+            else:
+                ops.append("d")
+        for i in sched:
+            if i not in compl and rnd.random() < 0.7:
+                ops.append("c%d" % i); compl.add(i)
+        out.append("slab " + " ".join(ops + ["d", "d", "d"]))
+    return out
+
+
+def spec_slab(q, a):
+    ops = q.split()[1:]
+    if a.endswith("panicked=1"):
+        return "the executor panicked on a history of schedule / complete / dispatch"
+    got = [int(x) for x in a.split("delivered=[")[1].split("]")[0].split(",") if x]
+    want = sorted({int(o[1:]) for o in ops if o[0] == "c"} & {int(o[1:]) for o in ops if o[0] == "s"})
+    if len(got) != len(set(got)):
+        return "an output was delivered twice: %s" % got
+    if sorted(got) != want:
+        return "tasks %s completed and the loop kept dispatching, delivered %s (an output was lost, or delivered for a task that never completed)" % (want, got)
+    return None
+
+
 def stream_cases(res, tier, have_drv):
     sizes = [0, 1, 2, 7, 1023, 1024, 1025, 3000] + ([2048, 2049, 5000, 10000] if tier == "thorough" else [])
-    lines = ["stream %d %d" % (n, 5) for n in sizes] + ["yield %d" % n for n in (0, 1, 2, 5)]
+    lines = ["stream %d %d" % (n, 5) for n in sizes] + ["yield %d" % n for n in (0, 1, 2, 5)] + slab_queries(tier, res.seed)
     impl, model = exec_cb_queries(lines, have_drv)
     for i, (q, a) in enumerate(zip(lines, impl)):
-        v = spec_stream(q, a) if q.startswith("stream") else spec_yield(q, a)
+        v = spec_stream(q, a) if q.startswith("stream") else spec_slab(q, a) if q.startswith("slab") else spec_yield(q, a)
         if v:
             res.cov["impl_monitor_failures"] += 1
             if len(res.violations) < 3:
                 d = C.write_replay(res.pid, {"case.execcb": q + "\n", "impl.obs": a + "\n", "verdict.txt": v + "\n"})
-                res.violations.append(("C10 on a real StreamSource: %s   [%s]" % (v, q), os.path.join(d, "case.execcb")))
+                res.violations.append(("C10 on a real %s: %s   [%s]" % ("executor" if q.startswith(("slab", "yield")) else "StreamSource", v, q), os.path.join(d, "case.execcb")))
         elif model is not None and model[i] != a and not res.broken:
-            res.broken.append("correspondence (StreamSource): `%s`: impl `%s` vs model `%s`" % (q, a, model[i]))
+            res.broken.append("correspondence (executor / StreamSource queries): `%s`: impl `%s` vs model `%s`" % (q, a, model[i]))
     res.cov["stream_cases"] = len(lines)
     res.cov["evaluations"] = res.cov.get("evaluations", 0) + len(lines)
 
@@ -349,7 +388,8 @@ def replay(path):
     if path.endswith(".execcb"):
         q = open(path).read().strip()
         impl, _ = exec_cb_queries([q], False)
-        v = spec_stream(q, impl[0]) if q.startswith("stream") else (spec_yield(q, impl[0]) if q.startswith("yield") else None)
+        v = spec_stream(q, impl[0]) if q.startswith("stream") else (spec_yield(q, impl[0]) if q.startswith("yield") else
+                                                                        spec_slab(q, impl[0]) if q.startswith("slab") else None)
         print(impl[0]); print("verdict:", v)
         return 1 if v else 0
     case = [l.rstrip("\n") for l in open(path) if l.strip()]
